@@ -8,7 +8,7 @@ cd "$(dirname "$0")"
   echo
   echo "Produced by \`seeded/run_checks.sh\` (each change applied in a scratch worktree, every registered check run"
   echo "from a snapshot of /verif) and rendered by \`seeded/table.py\`. First-round mutants (\`_m1\`..\`_m3\`) were run against"
-  echo "all 20 checks, second- and third-round mutants (\`_m4\`, \`_m5\`) against the check of their own property. Obligations ending in"
+  echo "all 20 checks, later rounds (\`_m4\`..\`_m9\`) against the check of their own property (logs: \`seeded/logs/\`). Obligations ending in"
   echo "\`/supported-subset\` mean that the contract no longer fits the changed code (a renamed or removed local, a removed"
   echo "defer), which is reported like any other failed obligation."
   echo
@@ -30,8 +30,23 @@ cd "$(dirname "$0")"
   echo "reported at once; the seven misses (C03_m7 comment delimiters not passed to the lexer, C05_m6 kind before Ranger"
   echo "interface, C06_m7 indirect stopping at non-empty interfaces, C07_m7 context kept in the pooled runtime, C08_m7 empty"
   echo "yield content, C09_m6 getTemplate dropping a template that failed to parse, C17_m6 an extra error exit in the map arm"
-  echo "of resolveIndex) each led to a new postcondition or call-site clause. First-exposure detection by the property's own"
-  echo "check was thus 43/60, 16/20, 17/20 and 33/40 over the four rounds; after strengthening, all 140 are reported."
+  echo "of resolveIndex) each led to a new postcondition or call-site clause. A fifth round (\`_m8\`, \`_m9\`, all 20"
+  echo "properties; the agents were given one-line summaries of the 140 earlier changes and told not to repeat them): 22 of"
+  echo "40 reported at once. The 18 misses and what they led to: C04_m8 (a sign folded into a number literal at parse time:"
+  echo "unaryExpression's result is now pinned to the node its constructor returned), C05_m8 (if-header scope popped before"
+  echo "the else branch: both branches are called inside the header scope), C05_m9 (indirect stopping at interfaces with"
+  echo "methods: the C06 postcondition now also counts for C05, getRanger hands Setup the fully indirected value), C06_m9 and"
+  echo "C17_m8 (a literal string index passed as a field name: call-site clauses pin what an index expression hands to"
+  echo "resolveIndex), C09_m9 (return routed through lastReturn: step clause on NodeReturn), C10_m8 and C11_m8 (pooled ranger"
+  echo "put back twice: each range statement calls its cleanup exactly once), C10_m9 (getBlock memoising into a shared block"
+  echo "table: \`stores-map\` frame on the block-table type), C11_m9 (template cached before its block table is complete:"
+  echo "\`(Cache).Put\` only in getTemplate), C13_m8 (catch variable bound with SetOrLet: the catch body runs in a fresh scope"
+  echo "holding the error, no Set/Let calls in executeTry), C14_m9 (len counting runes: functional contract of the len"
+  echo "builtin), C15_m8 and C15_m9 (exec/includeIfExists and extends/import rewriting the name before lookup: call-site"
+  echo "clauses pin the name as written), C16_m8 (falling through to a later extension after a load failure: the first existing"
+  echo "candidate decides), C18_m8 and C18_m9 (SetOrLet and ParseInto had no contract). The same agents reported five"
+  echo "pre-existing violations, all confirmed and repaired (I.6). First-exposure detection by the property's own check was"
+  echo "thus 43/60, 16/20, 17/20, 33/40 and 22/40 over the five rounds; after strengthening, all 180 are reported."
   echo
   echo "# Part II — the round-0 plan (kept for reference; Part I wins where they differ)"
   echo
